@@ -11,9 +11,11 @@ visible and whether the process is alive at each `sleep`/`poll` of the engine), 
 interfaces, length limit, and every amount of fuel (`Err.fuel` = the code would still be looping).
 
 Findings re-established here:
-* `lammps_frame_uses_own_box` is FALSE for the code as it is (`Variant.asIs`, lammps.py:499
+* `lammps_frame_uses_own_box` was FALSE for the code as found (`Variant.asIs`, lammps.py:499
   `box_trajectory.pop()`): `lammps_frame_uses_own_box_counterexample`; it holds under the guards of
-  `lammps_frame_uses_own_box_partial` and, at full strength, for `Variant.repaired` (`pop(0)`).
+  `lammps_frame_uses_own_box_partial` and, at full strength, for `Variant.repaired` (`pop(0)`), which is what
+  /repo does since commit d3f25c6 (the tie now agrees with `repaired` only; the witness lives in corpus/C12).
+* `success_iff_outside` is stated at full strength since `add_to_path` was repaired (f955162).
 * GROMACS hands the order function the file velocity also for backward paths (negated twice):
   `gromacs_velocity_direction_counterexample` — model level only, NOT tied to the code (no fake gmx).
 * CP2K never reads a box from the program's output: `cp2k_frame_uses_own_box_partial` needs a constant box
